@@ -14,11 +14,13 @@ package main
 import (
 	"bufio"
 	"bytes"
+	"encoding/json"
 	"flag"
 	"fmt"
 	"hash/fnv"
 	"io"
 	"os"
+	"os/exec"
 	"path/filepath"
 	"regexp"
 	"runtime"
@@ -41,6 +43,10 @@ import (
 )
 
 var suite = flag.String("suite", "c06", "c06|c07|c08")
+
+// internal: run as a child process of the C08 cross-process experiment (session script on stdin,
+// transcript on stdout)
+var childSession = flag.Bool("child-session", false, "internal: child process of the c08 cross-process experiment")
 
 // ---------------------------------------------------------------------------------------------
 // roots
@@ -1866,8 +1872,10 @@ func (e *env) c08() {
 		"(a') separate engines do not influence each other: engines A, B(, C) with node-limited requests, each first run SOLO; then B is searched to completion from inside A's Output.Write at a chosen info line of A (C likewise inside B), and separately all are started in concurrent goroutines; each engine's observation must equal its solo run (the first cases run on a single goroutine while nothing else is searching); " +
 		"(b) soft == hard: search with a soft node limit ends after N nodes -> an identically prepared instance with hard budget exactly N gives the same (score, move, ponder), the same info lines (the hard run may add the abort notice of the next iteration), exactly N nodes and the same state behind (hook digest + battery of follow-up searches compared in full; in the dense class sweep: hook digest + one follow-up search); when the soft run's variant reports no count, N is taken from an identically prepared reference engine and the two soft runs must agree as well; random roots/limits, plus for EVERY root of the classes {drawn by the clock (FEN clock >= 100 / played up to 100), third occurrence through a played history, checkmate, stalemate, single reply, in check, ordinary} EVERY soft limit S in 1..80 and a sparse tail; " +
 		"(c) node counter <= hard budget in every run: every k in 0..K on the sweep roots, every k in 0..80 (+ sparse) on the class roots, in all option variants; " +
-		"(d) the same in PONDER searches (WithNodes(N) together with WithPonderHit, bounded by a stop channel). " +
-		"non-trivial = (a) game of >= 10 plies, (a') run whose solo searches printed >= 2 info lines, (b) soft-limited run that really ended at the soft limit, or twin on a final root with S below the iteration count; distinct by (root, limits, table size, warm-up, variants)"
+		"(d) the same in PONDER searches (WithNodes(N) together with WithPonderHit, bounded by a stop channel); " +
+		"(e) engine lifecycle: scripts of searches, Search.ResizeTT(size) and Search.Clear() in every order on one engine, sizes = multiples of 32 bytes from one bucket to 4 MiB going down and up (back to exactly the old size, between, above the historical maximum; below 1000 buckets the searches run without output); an engine whose script ends with Clear followed by resizes only must have the state digest of search.New(S) and answer the follow-up requests exactly like it (result, info lines, counts, digest after each); a twin engine driven through the same script must agree at every search; the same through the in-process UCI driver (setoption name Hash value N / ucinewgame / go nodes K against a session that only sets the final size); " +
+		"(f) cross-process: the harness re-executes itself as two child processes per session, each runs the same session (one engine, 2-3 self-play games from generated roots with fixed depth / hard budget / soft limit per ply, optional ResizeTT/Clear between the games, output on) and prints the transcript (results, counts, info lines with the time masked, final digest); the transcripts must be byte-identical to each other and to the same session run in-process. " +
+		"non-trivial = (a) game of >= 10 plies, (a') run whose solo searches printed >= 2 info lines, (b) soft-limited run that really ended at the soft limit, or twin on a final root with S below the iteration count, (e) script with at least one search and one resize, (f) session of >= 5 searches; distinct by (root, limits, table size, warm-up, variants)"
 	if digest(search.New(32000)) != "" {
 		e.r.Notes = append(e.r.Notes, "search.VerifDigest hook present: persistent state compared by digest as well")
 	} else {
@@ -1911,6 +1919,9 @@ func (e *env) c08() {
 	loadWG.Wait()
 	e.c08twins(classRoots)
 	e.c08sweep(classRoots)
+	e.c08lifecycle()
+	e.c08uciLifecycle()
+	e.c08processes()
 	e.c08ponder()
 }
 
@@ -2802,6 +2813,643 @@ func (e *env) c08sweep(classRoots []*root) {
 	}
 }
 
+// ---------------------------------------------------------------------------------------------
+// C08 (e) engine lifecycle: ResizeTT (setoption name Hash) and Clear (ucinewgame) between searches
+
+const minOutputTT = 1000 * 32 // HashFull needs 1000 buckets: below that only searches without output
+
+type lcOp struct {
+	kind byte // 's' search, 'r' ResizeTT, 'c' Clear
+	size int
+	rt   *root
+	l    limits
+}
+
+func (o lcOp) String() string {
+	switch o.kind {
+	case 'r':
+		return fmt.Sprintf("ResizeTT(%d)", o.size)
+	case 'c':
+		return "Clear()"
+	}
+	return o.rt.position() + " ; " + o.l.String()
+}
+
+// lifecycle is one script on ONE engine: New(tt0), then searches, resizes and clears in any order.
+// canonical: the script ends with Clear() followed by resizes only, so the engine must now be
+// indistinguishable from search.New(final).  twin: a second engine is driven through the same script
+// and must agree at every search.
+type lifecycle struct {
+	tt0       int
+	ops       []lcOp
+	follow    []lcOp
+	canonical bool
+	twin      bool
+	final     int
+	tag       string
+	regrown   bool // a cleared engine grown again over a region that was cut off (not cleared) while it held content
+	evals     int
+	fails     []common.Mismatch
+}
+
+func (lc *lifecycle) opsList() []string {
+	ops := []string{fmt.Sprintf("engine A: new tt=%d", lc.tt0)}
+	for _, o := range lc.ops {
+		ops = append(ops, "engine A: "+o.String())
+	}
+	return ops
+}
+
+func lcApply(s *search.Search, o lcOp) (ob obs, searched bool, pan string) {
+	defer func() {
+		if p := recover(); p != nil {
+			pan = fmt.Sprint(p)
+		}
+	}()
+	switch o.kind {
+	case 'r':
+		s.ResizeTT(o.size)
+	case 'c':
+		s.Clear()
+	default:
+		return observeRun(run(s, o.rt.build(), o.l, nil), o.l), true, ""
+	}
+	return
+}
+
+func (lc *lifecycle) exec() {
+	a := search.New(lc.tt0)
+	var b *search.Search
+	if lc.twin {
+		b = search.New(lc.tt0)
+	}
+	ops := lc.opsList()
+	fail := func(impl, spec, note string, extra ...string) {
+		lc.fails = append(lc.fails, common.Mismatch{Property: "C08", Kind: "failing-input", Ops: append(append([]string{}, ops...), extra...), Impl: impl, Spec: spec, Note: note})
+	}
+	for i, o := range lc.ops {
+		oa, searched, pan := lcApply(a, o)
+		if pan != "" {
+			fail(pan, "", fmt.Sprintf("lifecycle operation #%d (%s) panicked", i, o))
+			return
+		}
+		if searched {
+			lc.evals++
+		}
+		if b != nil {
+			ob, _, _ := lcApply(b, o)
+			if what := diffObs(oa, ob, false); searched && what != "" {
+				fail(ob.String(), oa.String(), "two engines driven through the same lifecycle script disagree: "+what, fmt.Sprintf("engine B: the same script; first difference at operation #%d", i))
+				return
+			}
+		}
+	}
+	if b != nil {
+		if da, db := digest(a), digest(b); da != db {
+			fail(db, da, "two engines driven through the same lifecycle script disagree: state digest", "engine B: the same script")
+			return
+		}
+	}
+	var ref *search.Search
+	if lc.canonical {
+		ref = search.New(lc.final)
+		ops = append(ops, fmt.Sprintf("engine R: new tt=%d", lc.final))
+		if da, dr := digest(a), digest(ref); da != dr {
+			fail(da, dr, "an engine that was cleared after its last search and resized to S differs from search.New(S): state digest (tables, histories, generation)")
+			return
+		}
+	}
+	for k, o := range lc.follow {
+		ops = append(ops, fmt.Sprintf("follow-up #%d on every engine: %s", k, o))
+		oa := observe(a, run(a, o.rt.build(), o.l, nil), o.l)
+		lc.evals++
+		if ref != nil {
+			or := observe(ref, run(ref, o.rt.build(), o.l, nil), o.l)
+			lc.evals++
+			if what := diffObs(or, oa, false); what != "" {
+				fail(oa.String(), or.String(), "an engine that was cleared after its last search and resized to S does not behave like search.New(S): "+what)
+				return
+			}
+		}
+		if b != nil {
+			ob := observe(b, run(b, o.rt.build(), o.l, nil), o.l)
+			lc.evals++
+			if what := diffObs(oa, ob, false); what != "" {
+				fail(ob.String(), oa.String(), "two engines driven through the same lifecycle script disagree: "+what, "engine B: the same script")
+				return
+			}
+		}
+	}
+}
+
+// genLifecycles draws the scripts.  Sizes: what transp.validateSize accepts (multiples of 32 bytes,
+// from one bucket up), mostly >= 1000 buckets so that searches with output are possible; random
+// scripts (every order of search / resize / clear) and directed down-up scripts (fill at a size,
+// shrink, clear, grow back to exactly the old size / between / above the historical maximum).
+func (e *env) genLifecycles(n int) []*lifecycle {
+	rng := e.c.Rng
+	sizes := []int{32000, 32032, 65536, 99968, 262144, 1 << 20, 2 << 20}
+	pickSize := func() int {
+		switch r := rng.IntN(20); {
+		case r == 0:
+			return []int{32, 640, 4096, 31968}[rng.IntN(4)] // too small for HashFull: searches run without output
+		case r == 1:
+			return 4 << 20
+		case r < 6:
+			return 32000 + 32*rng.IntN(30000)
+		}
+		return sizes[rng.IntN(len(sizes))]
+	}
+	searchOp := func(cur int, rt *root) lcOp {
+		if rt == nil {
+			rt = e.roots[rng.IntN(len(e.roots))]
+		}
+		l := limits{depth: MaxPlies, nodes: 800 + rng.IntN(3500)}
+		switch rng.IntN(4) {
+		case 0:
+			l.depth = 3 + rng.IntN(5)
+		case 1:
+			l.soft = l.nodes / 2
+			l.nodes = -1
+		}
+		l = optVars[rng.IntN(4)].on(l)
+		if cur < minOutputTT {
+			l.noOut = true
+		}
+		return lcOp{kind: 's', rt: rt, l: l}
+	}
+	var out []*lifecycle
+	for i := 0; i < n; i++ {
+		lc := &lifecycle{tt0: pickSize()}
+		cur := lc.tt0
+		add := func(o lcOp) {
+			if o.kind == 'r' {
+				cur = o.size
+			}
+			lc.ops = append(lc.ops, o)
+		}
+		if i%3 == 0 {
+			// directed: fill, shrink, (search), clear, grow
+			lc.tag = "down-up"
+			for k := 1 + rng.IntN(3); k > 0; k-- {
+				add(searchOp(cur, nil))
+			}
+			hi := cur
+			lo := pickSize()
+			for lo >= hi && hi > 32 {
+				lo = 32 * (1 + rng.IntN(hi/32))
+			}
+			add(lcOp{kind: 'r', size: lo})
+			if rng.IntN(2) == 0 {
+				add(searchOp(cur, nil))
+			}
+			add(lcOp{kind: 'c'})
+			switch rng.IntN(4) {
+			case 0, 1:
+				add(lcOp{kind: 'r', size: hi}) // back to exactly the old size
+			case 2:
+				if hi-lo > 64 {
+					add(lcOp{kind: 'r', size: lo + 32*(1+rng.IntN((hi-lo)/32-1))}) // between
+				} else {
+					add(lcOp{kind: 'r', size: hi})
+				}
+			case 3:
+				add(lcOp{kind: 'r', size: hi + 32*(1+rng.IntN(40000))}) // above the historical maximum
+			}
+			if rng.IntN(3) == 0 {
+				add(lcOp{kind: 'r', size: pickSize()})
+			}
+			lc.canonical = true
+		} else {
+			lc.tag = "random"
+			for k := 3 + rng.IntN(6); k > 0; k-- {
+				switch r := rng.IntN(10); {
+				case r < 4:
+					add(searchOp(cur, nil))
+				case r < 8:
+					add(lcOp{kind: 'r', size: pickSize()})
+				default:
+					add(lcOp{kind: 'c'})
+				}
+			}
+			if rng.IntN(3) != 0 {
+				lc.canonical = true
+				add(lcOp{kind: 'c'})
+				for k := rng.IntN(3); k > 0; k-- {
+					add(lcOp{kind: 'r', size: pickSize()})
+				}
+			}
+		}
+		lc.final = cur
+		lc.twin = !lc.canonical || rng.IntN(3) == 0
+		// follow-ups: a root the script searched (its entries are the stale ones, if any), then a random one
+		var searched []*root
+		for _, o := range lc.ops {
+			if o.kind == 's' {
+				searched = append(searched, o.rt)
+			}
+		}
+		if len(searched) > 0 {
+			lc.follow = append(lc.follow, searchOp(cur, searched[rng.IntN(len(searched))]))
+		}
+		lc.follow = append(lc.follow, searchOp(cur, nil))
+		// histogram class: the ideal-memory model of the buffer (content beyond the current length
+		// survives a Clear; a grow within the old capacity would expose it again)
+		bounds := map[int]bool{lc.tt0: true}
+		for _, o := range lc.ops {
+			if o.kind == 'r' {
+				bounds[o.size] = true
+			}
+		}
+		var bs []int
+		for b := range bounds {
+			bs = append(bs, b)
+		}
+		sort.Ints(bs)
+		dirty := make([]bool, len(bs)) // region (bs[i-1], bs[i]] holds uncleared content
+		c, capMax := lc.tt0, lc.tt0
+		for _, o := range lc.ops {
+			switch o.kind {
+			case 's':
+				for j, b := range bs {
+					if b <= c {
+						dirty[j] = true
+					}
+				}
+			case 'c':
+				for j, b := range bs {
+					if b <= c {
+						dirty[j] = false
+					}
+				}
+			case 'r':
+				c = o.size
+				if c > capMax {
+					capMax = c
+					for j := range dirty {
+						dirty[j] = false
+					}
+				}
+			}
+		}
+		for j, b := range bs {
+			if lc.canonical && b <= lc.final && dirty[j] {
+				lc.regrown = true
+			}
+		}
+		out = append(out, lc)
+	}
+	return out
+}
+
+func (e *env) c08lifecycle() {
+	lcs := e.genLifecycles(e.c.Pick(240, 2500))
+	parallel(len(lcs), func(i int) { lcs[i].exec() })
+	for _, lc := range lcs {
+		e.r.Evaluations += lc.evals
+		e.r.Count("lifecycle-scripts", 1)
+		e.r.Count("lifecycle-scripts:"+lc.tag, 1)
+		if lc.canonical {
+			e.r.Count("lifecycle-scripts:cleared-then-resized,compared-with-New", 1)
+		}
+		if lc.twin {
+			e.r.Count("lifecycle-scripts:twin-engine-through-the-same-script", 1)
+		}
+		if lc.regrown {
+			e.r.Count("lifecycle-scripts:cleared-engine-regrown-over-a-region-cut-off-while-it-held-content", 1)
+		}
+		if lc.final < minOutputTT {
+			e.r.Count("lifecycle-scripts:final-size-below-1000-buckets", 1)
+		}
+		nr, nc, ns := 0, 0, 0
+		for _, o := range lc.ops {
+			switch o.kind {
+			case 'r':
+				nr++
+			case 'c':
+				nc++
+			default:
+				ns++
+			}
+		}
+		e.r.Count("lifecycle-ops:ResizeTT", nr)
+		e.r.Count("lifecycle-ops:Clear", nc)
+		e.r.Count("lifecycle-ops:search", ns)
+		if ns > 0 && nr > 0 {
+			e.r.Nontrivial("lifecycle|" + strings.Join(lc.opsList(), "|"))
+		}
+		for _, f := range lc.fails {
+			e.r.Fail(f)
+		}
+		if len(lc.fails) > 0 {
+			e.r.Count("FAILED:lifecycle:"+lc.tag, 1)
+		}
+	}
+	if len(lcs) > 0 {
+		e.r.Sample(map[string]any{"lifecycle": lcs[0].opsList()}, 8)
+	}
+}
+
+var reTime = regexp.MustCompile(` time \d+`)
+
+// c08uciLifecycle drives the same through the in-process UCI driver: `setoption name Hash value N`
+// down and up around `ucinewgame`, then `go nodes K`; a second session that only sets the final
+// hash size and sends `ucinewgame` must print the same lines (time masked) and the same bestmove.
+func (e *env) c08uciLifecycle() {
+	rng := e.c.Rng
+	type uj struct {
+		cmds, tail []string
+		final      int
+		a, b       []string
+		err        string
+	}
+	hashes := []int{1, 2, 3, 4, 6, 8}
+	var js []*uj
+	for i := e.c.Pick(8, 60); i > 0; i-- {
+		j := &uj{}
+		var rts []*root
+		for len(rts) < 2 {
+			if rt := e.roots[rng.IntN(len(e.roots))]; !rt.final {
+				rts = append(rts, rt)
+			}
+		}
+		hi := hashes[1+rng.IntN(len(hashes)-1)]
+		lo := 1 + rng.IntN(hi-1)
+		j.cmds = append(j.cmds, fmt.Sprintf("setoption name Hash value %d", hi), "ucinewgame")
+		for k := 1 + rng.IntN(3); k > 0; k-- {
+			j.cmds = append(j.cmds, rts[rng.IntN(2)].position(), fmt.Sprintf("go nodes %d", 2000+rng.IntN(6000)))
+		}
+		j.cmds = append(j.cmds, fmt.Sprintf("setoption name Hash value %d", lo))
+		if rng.IntN(2) == 0 {
+			j.cmds = append(j.cmds, rts[rng.IntN(2)].position(), fmt.Sprintf("go nodes %d", 1000+rng.IntN(3000)))
+		}
+		j.final = hi
+		switch rng.IntN(4) {
+		case 0:
+			j.final = lo + rng.IntN(hi-lo+1)
+		case 1:
+			j.final = hi + 1 + rng.IntN(3)
+		}
+		if rng.IntN(2) == 0 {
+			j.cmds = append(j.cmds, "ucinewgame", fmt.Sprintf("setoption name Hash value %d", j.final))
+		} else {
+			j.cmds = append(j.cmds, fmt.Sprintf("setoption name Hash value %d", j.final+1), "ucinewgame", fmt.Sprintf("setoption name Hash value %d", j.final))
+		}
+		j.tail = []string{rts[0].position(), fmt.Sprintf("go nodes %d", 2000+rng.IntN(6000)), rts[1].position(), fmt.Sprintf("go nodes %d", 2000+rng.IntN(4000))}
+		js = append(js, j)
+	}
+	// play returns the output of every `go` command (info lines with the time masked, then bestmove)
+	play := func(cmds []string) (blocks [][]string, err string) {
+		s := newSession(1 << 20)
+		defer s.close()
+		for _, c := range cmds {
+			s.send(c)
+			if strings.HasPrefix(c, "go") {
+				lines, best, ok := s.waitBest(60 * time.Second)
+				if !ok {
+					return blocks, "no bestmove after " + c
+				}
+				var blk []string
+				for _, l := range lines {
+					blk = append(blk, reTime.ReplaceAllString(l, " time _"))
+				}
+				blocks = append(blocks, append(blk, best))
+			}
+		}
+		return blocks, ""
+	}
+	flat := func(blocks [][]string) (out []string) {
+		for _, b := range blocks {
+			out = append(out, b...)
+		}
+		return
+	}
+	parallel(len(js), func(i int) {
+		j := js[i]
+		all, err := play(append(append([]string{}, j.cmds...), j.tail...))
+		if err != "" {
+			j.err = err
+			return
+		}
+		ref, err := play(append([]string{fmt.Sprintf("setoption name Hash value %d", j.final), "ucinewgame"}, j.tail...))
+		if err != "" {
+			j.err = err
+			return
+		}
+		// the answers to the `go` commands of the tail are the last ones of session A
+		j.a, j.b = flat(all[len(all)-len(ref):]), flat(ref)
+	})
+	for _, j := range js {
+		e.r.Evaluations += 2
+		e.r.Count("uci-lifecycle-sessions", 1)
+		ops := append(append([]string{"session A:"}, j.cmds...), j.tail...)
+		ops = append(ops, "session B:", fmt.Sprintf("setoption name Hash value %d", j.final), "ucinewgame")
+		ops = append(ops, j.tail...)
+		if j.err != "" {
+			e.r.Fail(common.Mismatch{Property: "C08", Kind: "failing-input", Ops: ops, Impl: j.err, Note: "UCI session did not answer"})
+			continue
+		}
+		e.r.Nontrivial("ucilc|" + strings.Join(j.cmds, "|") + strings.Join(j.tail, "|"))
+		if a, b := strings.Join(j.a, "\n"), strings.Join(j.b, "\n"); a != b {
+			e.r.Fail(common.Mismatch{Property: "C08", Kind: "failing-input", Ops: ops, Impl: strings.Join(j.a, " ; "), Spec: strings.Join(j.b, " ; "),
+				Note: "after `ucinewgame` and `setoption name Hash` the long-lived engine answers differently from a new engine given the same two commands"})
+			e.r.Count("FAILED:uci-lifecycle", 1)
+		}
+	}
+}
+
+// ---------------------------------------------------------------------------------------------
+// C08 (f) cross-process reproducibility: the harness re-executes itself (-child-session) as child
+// processes that each run the same session script (read from stdin) and print the transcript.
+
+type sessPly struct{ Depth, Nodes, Soft int }
+
+type sessGame struct {
+	Fen    string
+	Moves  []string
+	Resize int  // > 0: ResizeTT before the game
+	Clear  bool // Clear before the game
+	Plies  []sessPly
+}
+
+type sessScript struct {
+	TT    int
+	Games []sessGame
+}
+
+func (sc *sessScript) ops() []string {
+	ops := []string{fmt.Sprintf("new tt=%d", sc.TT)}
+	for _, g := range sc.Games {
+		if g.Resize > 0 {
+			ops = append(ops, fmt.Sprintf("ResizeTT(%d)", g.Resize))
+		}
+		if g.Clear {
+			ops = append(ops, "Clear()")
+		}
+		var ls []string
+		for _, p := range g.Plies {
+			ls = append(ls, limits{depth: p.Depth, nodes: p.Nodes, soft: p.Soft}.String())
+		}
+		ops = append(ops, (&root{fen: g.Fen, moves: g.Moves}).position()+" ; self-play, one search per ply: "+strings.Join(ls, " | "))
+	}
+	return ops
+}
+
+// runSession runs the script on one engine and returns the transcript: everything observable
+// except the time field, and the state digest at the end.
+func runSession(sc *sessScript) []string {
+	var out []string
+	s := search.New(sc.TT)
+	for gi, g := range sc.Games {
+		if g.Resize > 0 {
+			s.ResizeTT(g.Resize)
+		}
+		if g.Clear {
+			s.Clear()
+		}
+		b := (&root{fen: g.Fen, moves: g.Moves}).build()
+		if b == nil {
+			out = append(out, fmt.Sprintf("game %d: unusable root", gi))
+			continue
+		}
+		for pi, p := range g.Plies {
+			legal := implutil.Legal(b)
+			if len(legal) == 0 || b.FiftyCnt >= 100 || b.Threefold() >= 3 {
+				break
+			}
+			l := limits{depth: p.Depth, nodes: p.Nodes, soft: p.Soft}
+			oc := run(s, b, l, nil)
+			out = append(out, fmt.Sprintf("game %d ply %d %s %s -> %s", gi, pi, b.FEN(), l, observeRun(oc, l)))
+			if oc.mv == 0 || !contains(legal, oc.mv) {
+				break
+			}
+			b.MakeMove(oc.mv)
+		}
+	}
+	return append(out, "digest "+digest(s))
+}
+
+// childMain is the child process: script on stdin, transcript on stdout.
+func childMain() {
+	var sc sessScript
+	if err := json.NewDecoder(os.Stdin).Decode(&sc); err != nil {
+		fmt.Fprintln(os.Stderr, "search harness child: bad session script:", err)
+		os.Exit(2)
+	}
+	w := bufio.NewWriter(os.Stdout)
+	for _, l := range runSession(&sc) {
+		fmt.Fprintln(w, l)
+	}
+	w.Flush()
+}
+
+func (e *env) c08processes() {
+	rng := e.c.Rng
+	exe, err := os.Executable()
+	if err != nil {
+		panic("search harness: cannot find its own executable: " + err.Error())
+	}
+	const procs = 2
+	type pj struct {
+		sc    sessScript
+		local []string
+		child [procs]string
+		err   [procs]error
+	}
+	var js []*pj
+	for i := e.c.Pick(4, 16); i > 0; i-- {
+		j := &pj{sc: sessScript{TT: ttSizes[rng.IntN(3)]}}
+		for g := 2 + rng.IntN(2); g > 0; g-- {
+			var rt *root
+			for {
+				if rt = e.roots[rng.IntN(len(e.roots))]; !rt.final {
+					break
+				}
+			}
+			gm := sessGame{Fen: rt.fen, Moves: rt.moves}
+			if len(j.sc.Games) > 0 {
+				if rng.IntN(3) == 0 {
+					gm.Resize = ttSizes[rng.IntN(3)]
+				}
+				gm.Clear = rng.IntN(2) == 0
+			}
+			for p := 3 + rng.IntN(4); p > 0; p-- {
+				pl := sessPly{Depth: MaxPlies, Nodes: -1}
+				switch rng.IntN(3) {
+				case 0:
+					pl.Depth = 3 + rng.IntN(3)
+				case 1:
+					pl.Nodes = 1000 + rng.IntN(6000)
+				case 2:
+					pl.Soft = 500 + rng.IntN(3000)
+				}
+				gm.Plies = append(gm.Plies, pl)
+			}
+			j.sc.Games = append(j.sc.Games, gm)
+		}
+		js = append(js, j)
+	}
+	parallel(len(js)*(procs+1), func(i int) {
+		j, k := js[i/(procs+1)], i%(procs+1)
+		if k == procs {
+			j.local = runSession(&j.sc)
+			return
+		}
+		in, _ := json.Marshal(&j.sc)
+		cmd := exec.Command(exe, "-child-session")
+		cmd.Stdin = bytes.NewReader(in)
+		cmd.Stderr = os.Stderr
+		out, err := cmd.Output()
+		j.child[k], j.err[k] = string(out), err
+	})
+	for _, j := range js {
+		e.r.Count("process-sessions", 1)
+		e.r.Count("process-sessions:child-processes", procs)
+		e.r.Evaluations += (procs + 1) * (len(j.local) - 1)
+		e.r.Count("process-sessions:searches-per-process", len(j.local)-1)
+		local := strings.Join(j.local, "\n") + "\n"
+		if len(j.local) >= 6 {
+			e.r.Nontrivial("proc|" + strings.Join(j.sc.ops(), "|"))
+		}
+		for k := 0; k < procs; k++ {
+			if j.err[k] != nil {
+				panic(fmt.Sprintf("search harness: child process failed: %v", j.err[k]))
+			}
+		}
+		firstDiff := func(a, b string) (string, string) {
+			la, lb := strings.Split(a, "\n"), strings.Split(b, "\n")
+			for i := 0; i < len(la) || i < len(lb); i++ {
+				x, y := "<end>", "<end>"
+				if i < len(la) {
+					x = la[i]
+				}
+				if i < len(lb) {
+					y = lb[i]
+				}
+				if x != y {
+					return x, y
+				}
+			}
+			return "", ""
+		}
+		switch {
+		case j.child[0] != j.child[1]:
+			x, y := firstDiff(j.child[0], j.child[1])
+			e.r.Fail(common.Mismatch{Property: "C08", Kind: "failing-input", Ops: append(j.sc.ops(), "the same session in two separate processes; first differing transcript line"),
+				Impl: y, Spec: x, Note: "two engine PROCESSES in the same state given the same requests report different results"})
+			e.r.Count("FAILED:process-sessions", 1)
+		case j.child[0] != local:
+			x, y := firstDiff(local, j.child[0])
+			e.r.Fail(common.Mismatch{Property: "C08", Kind: "failing-input", Ops: append(j.sc.ops(), "the same session in this process and in a child process; first differing transcript line"),
+				Impl: y, Spec: x, Note: "two engine PROCESSES in the same state given the same requests report different results"})
+			e.r.Count("FAILED:process-sessions", 1)
+		}
+	}
+	if len(js) > 0 {
+		e.r.Sample(map[string]any{"process-session": js[0].sc.ops()}, 10)
+	}
+}
+
 // c08ponder: (d) the hard budget holds while pondering as well.  A ponder search ignores the depth
 // limit and, at the budget, neither counts nor aborts until the ponder hit arrives; the runs are
 // therefore bounded by a stop channel closed after a short while.  The ponder-hit channel is never
@@ -2907,6 +3555,10 @@ func hashStr(s string) string {
 
 func main() {
 	c := common.Parse()
+	if *childSession {
+		childMain()
+		return
+	}
 	e := &env{c: c}
 	boardDrv := filepath.Join(filepath.Dir(c.Driver), "drv_board")
 	if c.Driver == "" {
